@@ -19,6 +19,7 @@ from vlib.ref import classify as C
 from vlib.util import call
 
 PROPERTY_ID = "C15"
+OPTIMIZED = ['filtered-output']   # clauses run a second time under `python -O` (assert statements stripped)
 RULE = ("wallets from mnemonic + arbitrary passphrase, seed or xprv; both networks; accounts; intervals with 0..3 rows "
         "(incl. empty and reversed); a decoy wallet is filtered first in the same process; the filtered output is "
         "observed as the returned dict, through json(), pprint() on stdout, export_wallet() to a file and the CLI's "
